@@ -62,6 +62,9 @@ PIPES = {
     "two-partial-reducers": {"roots": {"x": ["i"], "q": ["j"]}, "sizes": S3, "axes": [], "reduced": ["i", "j"], "funcs": [
         _f("f", ["x", "q"], {"x": ["i"], "q": ["j"]}, ["i", "j"], [], ["a"]), _f("g", ["a"], {"a": ["i", None]}, ["i"], [], ["b"]),
         _f("h", ["a"], {"a": [None, "j"]}, ["j"], [], ["c"])]},
+    # an axis shared by two zipped ROOT inputs that sorts before another independent axis of another size
+    "zip-then-outer": {"roots": {"x": ["i"], "y": ["i"], "q": ["j"]}, "sizes": {**S3, "i": 2, "j": 3}, "axes": ["i", "j"], "funcs": [
+        _f("f", ["x", "y"], {"x": ["i"], "y": ["i"]}, ["i"], [], ["a"]), _f("g", ["a", "q"], {"a": ["i"], "q": ["j"]}, ["i", "j"], [], ["b"])]},
     "independent-single": {"roots": {"x": ["i"], "n": []}, "sizes": S3, "axes": ["i"], "funcs": [
         _f("f", ["x"], {"x": ["i"]}, ["i"], [], ["y"]), _f("h", ["n"], None, [], [], ["m"])]},
 }
@@ -477,6 +480,9 @@ def plan(tier, seed):
         if not PIPES[pipe]["axes"]:
             units.append(("C-rejections", ("C", {"pipe": pipe, "storage": "file_array"})))
             continue
+        if pipe == "zip-then-outer" and not rich:
+            units.append(("C-rejections", ("C", {"pipe": pipe, "storage": "file_array"})))
+            continue  # quick: learners and rejections only (part A's two-axis exploration is done on outer2d)
         for storage in ("file_array", "dict") if (rich or pipe in ("chain", "tuple-zip", "outer2d")) else ("file_array",):
             for hist in model_states(PIPES[pipe], selector_alphabet(PIPES[pipe], rich)):
                 units.append(("A-bfs-fixed-indices", ("A", {"pipe": pipe, "storage": storage}, rich, hist)))
@@ -516,7 +522,17 @@ def run_unit(unit):
         _, cfg = unit
         counts = learner_orders(cfg)
         n = 0
-        for choice in itertools.product(*(range(c) for c in counts)):
+        total = 1
+        for c in counts:
+            total *= c
+        if total <= 600:
+            choices = list(itertools.product(*(range(c) for c in counts)))
+        else:
+            # more learner units than any configuration of this check has on the unchanged tree: the same order index in
+            # every generation only (keeps a unit bounded; reported in the evidence notes)
+            choices = [tuple(min(k, c - 1) for c in counts) for k in range(max(counts))]
+            acc.notes[f"B: order product {total} > 600 reduced to {len(choices)} diagonal choices: {cfg['pipe']}"] += 1
+        for choice in choices:
             vs, nunits = run_learners(cfg, list(choice))
             n += 1
             acc.transitions += nunits
